@@ -21,7 +21,7 @@ macro_rules! define_gfgen { ($typename:ident, $fieldparams:ident, $submod:ident,
         const R2: Self = Self::pow2mod(Self::N * 64);
         const T32: Self = Self::pow2mod(Self::N * 32 + 32);
         const T64: Self = Self::pow2mod(Self::N * 32 + 64);
-        const T128: Self = Self::pow2mod(Self::N * 64 + 128);
+        const T128: Self = Self::pow2mod(Self::N * 32 + 128);
 
         // Element encoded length, in bytes.
         pub const ENC_LEN: usize = (Self::BITLEN + 7) >> 3;
